@@ -101,7 +101,13 @@ func (w *world) fail(sig, format string, a ...interface{}) *verdict {
 	return &verdict{sig, fmt.Sprintf(format, a...) + "\nservice errors: " + errs + "\n--- event log ---\n" + d}
 }
 
-func topic(t int) string { return fmt.Sprintf("c17/t%d", t) }
+// topic 3 lies below topic 0, so that the subscription record has a parent and a child
+func topic(t int) string {
+	if t == 3 {
+		return "c17/t0/x"
+	}
+	return fmt.Sprintf("c17/t%d", t)
+}
 
 // plan is the Dialer's hook: it picks the failure mode of connection attempt n.
 func (w *world) plan(n int) (bool, func(*memconn.Conn)) {
@@ -632,7 +638,7 @@ const lostUnsubSig = "subscriptions/lost-unsubscribe-persistent"
 func TestC17(t *testing.T) {
 	run := ev.Start("C17", "fault_enumeration")
 	run.ShrinkTime = "5s"
-	run.Rule("service scripts of 2-14 steps over {Subscribe/Unsubscribe on 4 topics, Publish QoS 0/1, three goroutines calling at once, push a failure mode for the next connection attempt, drop the live connection now, wait until online, Stop(false), Stop(true), Start}, clean session on and off; failure modes: dial refused, CONNECT unsendable, no CONNACK, CONNACK denied, drop after 0-3 packets (0 = during resubscribe), SUBACK with failure code, drop on the first QoS 1 publish before its PUBACK (at most 6 per script, then the fake broker is healthy). Oracle: the service comes online again (a QoS 1 probe completes within 10 s), the fake broker's subscription view for the session equals what all Subscribe/Unsubscribe calls so far imply (every call counts, in call order; the one recorded exception - an UNSUBSCRIBE that was not acknowledged before its connection ended, on a persistent session - is classified, counted and reported as KNOWN-FINDING), a completed publish future implies the broker received it, with clean session off every QoS 1 publish future completes once the resumed session's retransmission is acknowledged, Stop returns, Stop(true) leaves no future pending, a later Start comes online again. non-trivial = at least one injected failure and one forced reconnect or stop; distinct by script")
+	run.Rule("service scripts of 2-14 steps over {Subscribe/Unsubscribe on 4 topics (one nested below another), Publish QoS 0/1, three goroutines calling at once, push a failure mode for the next connection attempt, drop the live connection now, wait until online, Stop(false), Stop(true), Start}, clean session on and off; failure modes: dial refused, CONNECT unsendable, no CONNACK, CONNACK denied, drop after 0-3 packets (0 = during resubscribe), SUBACK with failure code, drop on the first QoS 1 publish before its PUBACK (at most 6 per script, then the fake broker is healthy). Oracle: the service comes online again (a QoS 1 probe completes within 10 s), the fake broker's subscription view for the session equals what all Subscribe/Unsubscribe calls so far imply (every call counts, in call order; the one recorded exception - an UNSUBSCRIBE that was not acknowledged before its connection ended, on a persistent session - is classified, counted and reported as KNOWN-FINDING), a completed publish future implies the broker received it, with clean session off every QoS 1 publish future completes once the resumed session's retransmission is acknowledged, Stop returns, Stop(true) leaves no future pending, a later Start comes online again. non-trivial = at least one injected failure and one forced reconnect or stop; distinct by script")
 	run.Assume("service time-outs shortened (connect/resubscribe 40 ms, disconnect 20 ms, reconnect delay 1-4 ms)", "liveness is judged by a 10 s ceiling")
 	defer run.Finish(t)
 	exec := func(c *Case) *verdict {
